@@ -378,7 +378,6 @@ def check_actuation(res, uf, g):
     fn, inlined = r_misc.inline_helpers(uf, uf.funcs[FN], skip=lambda name, h: r_misc.clamp_shape(h) is not None)
     res.extra["inlined_helpers"] = sorted(set(inlined))
     sh = Shape(uf, fn)
-    line = fn.get("line")
     key = g.find(FN)
     # ---------------- R-CTRL-COPY
     readers = {k for k, f in g.funcs.items()
@@ -747,6 +746,9 @@ MUTANTS = [
                 "// (qpos, qvel, ctrl, act) => (qfrc_actuator, actuator_force, act_dot)\nvoid mj_fwdActuation("),
                (FWD, "  clampVec(d->qfrc_actuator, m->jnt_actfrcrange, m->jnt_actfrclimited, m->njnt, m->jnt_dofadr);\n\n  mj_freeStack(d);",
                 "  clampJointForces(m, d);\n\n  mj_freeStack(d);")]},
+    {"id": "fix-clamp-skips-disabled", "expect": None, "fixes": [("R-DISABLED", "store:mju_clip")],
+     "edits": [(FWD, "    if (!m->actuator_forcelimited[i]) {\n      continue;\n    }\n    const mjtNum* range = m->actuator_forcerange + 2*i;",
+                "    if (!m->actuator_forcelimited[i] || mj_actuatorDisabled(m, i)) {\n      continue;\n    }\n    const mjtNum* range = m->actuator_forcerange + 2*i;")]},
     {"id": "ctl-reorder-scan-clamp", "expect": None,
      "edits": [(FWD, _CLAMP, ""),
                (FWD, "      mju_zero(ctrl, nu);\n      break;\n    }\n  }\n", "      mju_zero(ctrl, nu);\n      break;\n    }\n  }\n" + _CLAMP)]},
